@@ -2098,6 +2098,16 @@ func (ps *PushContext) setDestinationRules(configs []config.Config) {
 			for _, e := range rule.ExportTo {
 				exportToSet.Insert(visibility.Instance(e))
 			}
+			if exportToSet.IsEmpty() {
+				// No exportTo in destinationRule: the mesh default (defaultDestinationRuleExportTo) applies, with
+				// "." standing for the rule's own namespace.
+				for e := range ps.exportToDefaults.destinationRule {
+					if e == visibility.Private {
+						e = visibility.Instance(configs[i].Namespace)
+					}
+					exportToSet.Insert(e)
+				}
+			}
 		} else {
 			exportToSet = sets.New(visibility.Private)
 		}
